@@ -98,7 +98,8 @@ def constructed_cases(ctx):
     cx, cy, cz = C.centroid(base)
     ions = sorted(cfgt["ions"])
     if not ctx.thorough():
-        ions = ions[ctx.seed % 3::3]
+        # a third of the table per run, and always the ions whose atom name is not their residue name
+        ions = sorted(set(ions[ctx.seed % 3::3]) | {i for i in ions if i in C.ION_ATOM_NAMES})
     for k, ion in enumerate(ions):
         cases.append((f"ion-{ion}", C.join(base + [C.TER, C.ion_line(ion, (cx + 9000, cy + 1000 * (k % 3), cz))]), []))
     return cases
